@@ -36,6 +36,12 @@ func main() {
 		os.Exit(run.RunCheck(os.Args[2], tier))
 	case "replay":
 		os.Exit(run.Replay(os.Args[2]))
+	case "enumpart":
+		// resmc enumpart <prop> <tier> <part> <parts>   (debugging aid)
+		var part, parts int
+		fmt.Sscan(os.Args[4], &part)
+		fmt.Sscan(os.Args[5], &parts)
+		run.EnumPartDebug(os.Args[2], os.Args[3], part, parts)
 	case "list":
 		run.List()
 	default:
